@@ -1,19 +1,19 @@
 import PallasVerif.Stream
 import PallasVerif.Model.Negotiate
-/-! stream `negotiate` (C25): `n1 ours <v:magic:flag>* theirs <v:magic:flag>*` and `n2 …` — the two
-    negotiation models on tables written as entry tokens (order = the order written).
-    Replies: `ok accept <v> <magic>:<flag>` | `ok refused <v>` | `ok mismatch [<v> …]` (stack 1: in the
+/-! stream `negotiate` (C25): `n1 ours <entry>* theirs <entry>*` and `n2 …` — the two negotiation models
+    on tables written as entry tokens `v:magic:initiatorOnly:peerSharing:query` (all decimal, full u64
+    range for `v` and `magic`; `peerSharing` 256 = `None`, `query` 2 = `None`; order = the order written).
+    Replies: `ok accept <v> <magic>:<i>:<p>:<q>` | `ok refused <v>` | `ok mismatch [<v> …]` (stack 1: in the
     order sent; stack 2: ascending, the real order being a hash map's). -/
 namespace PallasVerif.Streams.Negotiate
 open PallasVerif PallasVerif.Negotiate
 
-abbrev VD := Nat × Nat
+/-- version data: network magic, initiator-only flag, peer sharing, query — compared field by field -/
+abbrev VD := Nat × Nat × Nat × Nat
 
 def parseEntry (s : String) : Option (Nat × VD) :=
-  match s.splitOn ":" with
-  | [v, m, f] => match v.toNat?, m.toNat?, f.toNat? with
-    | some v, some m, some f => some (v, (m, f))
-    | _, _, _ => none
+  match (s.splitOn ":").mapM String.toNat? with
+  | some [v, m, i, p, q] => some (v, (m, i, p, q))
   | _ => none
 
 def parseTables (toks : List String) : Option (Table VD × Table VD) :=
@@ -33,7 +33,8 @@ def insertAsc (x : Nat) : List Nat → List Nat
 def sortAsc (l : List Nat) : List Nat := l.foldr insertAsc []
 
 def showOutcome (sortIt : Bool) : Outcome VD → String
-  | .accept v d => "ok accept " ++ toString v ++ " " ++ toString d.1 ++ ":" ++ toString d.2
+  | .accept v d => "ok accept " ++ toString v ++ " " ++ toString d.1 ++ ":" ++ toString d.2.1 ++ ":" ++
+      toString d.2.2.1 ++ ":" ++ toString d.2.2.2
   | .refused v => "ok refused " ++ toString v
   | .versionMismatch l => "ok mismatch " ++ Tok.showList toString (if sortIt then sortAsc l else l)
   | .panic => "panic"
